@@ -816,7 +816,13 @@ impl ElementRaw {
                 })?;
                 if src_parent.downgrade() == self_weak {
                     // move new_element to a different position within the current element
-                    self.move_element_position(move_element, position)
+                    // the element already occupies one of the positions start_pos..end_pos, so the last position it can
+                    // be moved to is end_pos - 1; at end_pos it would end up behind the first element of the next kind
+                    if position < end_pos {
+                        self.move_element_position(move_element, position)
+                    } else {
+                        Err(AutosarDataError::InvalidPosition)
+                    }
                 } else {
                     // move the element within the same model
                     self.move_element_local(self_weak, move_element, position, model, version)
